@@ -346,18 +346,43 @@ class Driver:
         self.schd = None
 
     async def cmd(self, name, **kw):
-        """Run a scheduler command the way the resolvers do (validate, then execute)."""
+        """Issue a scheduler command the way the resolvers do: the validation step runs now, the command is put
+        on the scheduler's own command queue and executed by process_command_queue() in the next main-loop
+        iteration (which also marks the scheduler as updated, un-stalling it).  The cmd / cmd_done events are
+        emitted around the execution step."""
+        from contextlib import suppress
+        from uuid import uuid4
         from cylc.flow import commands
-        TR.emit("cmd", name=name, args={k: (v if isinstance(v, (int, str, bool, type(None))) else list(v)) for k, v in kw.items()})
-        TR.ctx.append("cmd:" + name)
+        args = {k: (v if isinstance(v, (int, str, bool, type(None))) else list(v)) for k, v in kw.items()}
+        if TR.point_index is not None and args.get("tasks"):
+            # datetime cycling: ids are logged with the integer index of their cycle point
+            args["tasks"] = [f"{TR.point_index.get(t.split('/')[0], t.split('/')[0])}/{t.split('/')[1]}" if "/" in t else t
+                             for t in args["tasks"]]
+        schd = self.schd
+        gen = commands.COMMANDS[name](schd, **kw)
         try:
-            ret = await commands.run_cmd(commands.COMMANDS[name](self.schd, **kw))
-        finally:
-            TR.ctx.pop()
-        if name == "remove_tasks":
-            self.pending_remove = list(kw.get("tasks") or [])
-        TR.emit("cmd_done", name=name, sync=instrument.sync_proj(self.schd))
-        return ret
+            await gen.__anext__()        # validation (raises for bad input, as in Resolvers._mutation_mapper)
+        except Exception as exc:
+            TR.emit("cmd_rejected", name=name, args=args, error=f"{type(exc).__name__}: {exc}"[:200])
+            return None
+        drv = self
+
+        async def execute():
+            TR.emit("cmd", name=name, args=args)
+            TR.ctx.append("cmd:" + name)
+            ret = None
+            try:
+                with suppress(StopAsyncIteration):
+                    ret = await gen.__anext__()
+            finally:
+                TR.ctx.pop()
+                if name == "remove_tasks":
+                    drv.pending_remove = list(kw.get("tasks") or [])
+                TR.emit("cmd_done", name=name, sync=instrument.sync_proj(schd))
+            yield ret
+
+        schd.command_queue.put((str(uuid4()), name, execute()))
+        return None
 
     def db_history(self, ids):
         """Flow sets of the task_states / task_outputs rows of the given 'point/name' ids, as the
